@@ -68,13 +68,13 @@ Proof. vm_compute. repeat split. Qed.
 Example field_instances : NumField R * NumField (R * R).
 Proof. exact (NumField_R, NumField_C). Qed.
 
-(* T1  non-floating (integer) dtypes: at every size the direct expression is used; the
-   stored result is the conversion [cast] of a*x1 + b*x2 -- no algebraic law is needed,
-   so this holds at every carrier and for every conversion. *)
+(* T1  non-floating (integer) dtypes: at every size the direct body is used; the stored
+   result is the conversion [cast] to the dtype (truncation) of a*x1 + b*x2 computed in the
+   field (integers embed) -- exact whenever a*x1 + b*x2 is representable. *)
 Theorem lincomb_nonfloating_correct :
-  forall (T : Type) (N : Num T) (cast : T -> T)
+  forall (T : Type) (N : Num T) (F : NumField T) (cast : T -> T)
          (blas_dtype : bool) (flags : list (bool * bool)) (a b : T) (i1 i2 io : nat) (s : store T),
-  length (s i1) = length (s i2) ->
+  length (s i1) = length (s i2) -> length (s io) = length (s i1) ->
   exists s', lincomb_impl cast false blas_dtype flags a i1 b i2 io s = Ok s'
           /\ s' io = map cast (vlin a (s i1) b (s i2))
           /\ forall j, j <> io -> s' j = s j.
@@ -116,16 +116,32 @@ Theorem set_zero_partial :
 Proof. exact @set_zero_nondirect. Qed.
 Print Assumptions set_zero_partial.
 
-(* ... and is FALSE in the direct regime (fewer than THRESHOLD_SMALL entries, or a
-   non-floating dtype), which evaluates 0*y + 0*y: NaN / inf in y survive set_zero().
+(* ... and is FALSE in the direct regime (fewer than THRESHOLD_SMALL entries, or a non-floating
+   dtype) as long as the direct body is the single unguarded assignment
+   out.data[:] = a*x1.data + b*x2.data  (is_guarded direct_body = false, the CURRENT source):
+   0*y + 0*y is evaluated and NaN / inf in y survive set_zero().
    Recorded finding C01/set_zero-nan-survives-direct. *)
 Theorem set_zero_direct_refuted :
   forall (T : Type) (N : Num T) (bi : blasinfo),
+  is_guarded direct_body = false ->
   exists (i : nat) (s : store (option T)) (s' : store (option T)),
     lincomb_fuel 2 (fun u => u) Direct bi
       {| e_a := of_Z 0; e_b := of_Z 0; e_x1 := i; e_x2 := i; e_out := i |} s = Ok s'
     /\ s' i <> map (fun _ => Some nzero) (s i).
 Proof. exact @set_zero_direct_counterexample. Qed.
+(* which variant the regenerated source is: *)
+Example direct_body_variant : is_guarded direct_body = false \/ is_guarded direct_body = true.
+Proof. vm_compute. first [left; reflexivity | right; reflexivity]. Qed.
+(* once the direct body tests its scalars (proposed_fixes/C01_direct-zero-scalars.diff) the full
+   statement holds in the direct regime too; vacuous for the current source *)
+Theorem set_zero_direct_repaired :
+  forall (T : Type) (N : Num T) (F : NumField T) (bi : blasinfo) (i : nat) (s : store (option T)),
+  is_guarded direct_body = true ->
+  exists s', lincomb_fuel 2 (fun u => u) Direct bi
+               {| e_a := of_Z 0; e_b := of_Z 0; e_x1 := i; e_x2 := i; e_out := i |} s = Ok s'
+          /\ s' i = map (fun _ => Some nzero) (s i)
+          /\ forall j, j <> i -> s' j = s j.
+Proof. exact @set_zero_direct_guarded. Qed.
 Print Assumptions set_zero_direct_refuted.
 
 (* ---------------------------------------------------------------------------
